@@ -31,6 +31,8 @@ def dispatch (op : String) : Option (List String → List String → Option (Str
   | "mg.iter.seq" => some mgIterSeq
   | "mg.jobcounter" => some mgJobcounter
   | "mg.dist" => some mgDist
+  | "mg.staged" => some mgStaged
+  | "mg.ramp" => some mgRamp
   | "dist" => some dist
   | "run" => some runOp
   | "cli" => some cliOp
